@@ -4,7 +4,7 @@ CONSTANTS AggReplace = FALSE
  MCKinds = {"pro","agg"}
  MaxStores = 3
  MaxQ = 2
- MaxExp = 2
+ MaxExp = 1
  MaxSet = 1
 INVARIANTS Safety
 PROPERTIES MCNeverReplaced MCOnlyStored
